@@ -29,6 +29,9 @@ type c14Case struct {
 	// Shared: the plugin hands out one and the same slice (with spare capacity)
 	// from every GetCapabilities call; the encoder sub-check encodes it twice
 	Shared bool `json:"shared,omitempty"`
+	// Mutate (with Shared, wire sub-check only): the plugin changes the values in that slice
+	// in place between calls; every OPEN carries what its own GetCapabilities call returned
+	Mutate bool `json:"mutate,omitempty"`
 }
 
 // c14Expect computes the capability list the OPEN must carry and whether it
@@ -154,7 +157,7 @@ func c14WireProp(t *testing.T, r *hx.Run) func(c c14Case) hx.Verdict {
 		r.SetCurrent("open_on_wire", c)
 		v, want, rep := c14Verdict(c)
 		p := world.PeerSpec{Remote: "10.0.0.2", LocalAS: c.LocalAS, RemoteAS: 64513, Passive: !c.Out, Hold: c.Hold,
-			Plugin: world.PluginSpec{Caps: c.Caps, NoNonce: true, SharedCaps: c.Shared}}
+			Plugin: world.PluginSpec{Caps: c.Caps, NoNonce: true, SharedCaps: c.Shared, MutateShared: c.Shared && c.Mutate}}
 		var dev *hx.Dev
 		prev := c.Prev
 		if !rep {
@@ -181,7 +184,19 @@ func c14WireProp(t *testing.T, r *hx.Run) func(c c14Case) hx.Verdict {
 					dev = hx.Devf("first-message-not-open", "first message has type %d", msgs[0].Type)
 					break
 				}
-				if d := c14CheckOpen(c, msgs[0].Body, want); d != nil {
+				cc := c
+				if c.Shared && c.Mutate && rep {
+					// what the latest GetCapabilities call returned (seeded change C14w)
+					evs := w.Rec.Events()
+					for i := len(evs) - 1; i >= 0; i-- {
+						if evs[i].K == "caps-" {
+							cc.Caps = evs[i].Caps
+							break
+						}
+					}
+					want, _, _ = c14Expect(cc)
+				}
+				if d := c14CheckOpen(cc, msgs[0].Body, want); d != nil {
 					if !rep {
 						d.Key = "open-length-wrap"
 						d.Msg = "unrepresentable capability list: " + d.Msg
@@ -246,6 +261,17 @@ func genC14(rt *rapid.T) c14Case {
 		}
 	}
 	c.Shared = rapid.IntRange(0, 2).Draw(rt, "shared") == 0
+	if c.Shared && len(c.Prev) > 0 {
+		// only when one FSM object makes all the calls (a passive peer, or outbound earlier
+		// sessions before an outbound one): two FSMs of a peer may call concurrently
+		one := true
+		for _, p := range c.Prev {
+			if c.Out && p.In {
+				one = false
+			}
+		}
+		c.Mutate = one && rapid.Bool().Draw(rt, "mutate")
+	}
 	return c
 }
 
